@@ -572,8 +572,20 @@ func RetVal(r *ssa.Return, i int) ssa.Value {
 
 // ProvablyNonNil reports whether v cannot be nil at instruction at.
 func ProvablyNonNil(v ssa.Value, at ssa.Instruction, depth int) bool {
+	return provablyNonNil(v, at, depth, nil)
+}
+
+// provablyNonNil: as ProvablyNonNil, with a set of values assumed non-nil (the parameters of a
+// callee that receive provably non-nil arguments).
+func provablyNonNil(v ssa.Value, at ssa.Instruction, depth int, assume map[ssa.Value]bool) bool {
 	if depth > 6 {
 		return false
+	}
+	if assume[v] {
+		return true
+	}
+	if r, ok := calleeResultNonNil(v, depth, assume); ok && r {
+		return true
 	}
 	switch x := v.(type) {
 	case *ssa.Const:
@@ -585,7 +597,7 @@ func ProvablyNonNil(v ssa.Value, at ssa.Instruction, depth int) bool {
 			if ObjName(o) == "errors.Join" && len(x.Call.Args) == 1 {
 				// variadic slice: non-nil if any stored element is provably non-nil
 				for _, el := range variadicElems(x.Call.Args[0]) {
-					if ProvablyNonNil(el, x, depth+1) {
+					if provablyNonNil(el, x, depth+1, assume) {
 						return true
 					}
 				}
@@ -599,7 +611,7 @@ func ProvablyNonNil(v ssa.Value, at ssa.Instruction, depth int) bool {
 				n := ObjName(o)
 				if strings.Contains(n, "Wrap") || strings.Contains(n, "WithStack") {
 					if len(x.Call.Args) > 0 {
-						return ProvablyNonNil(x.Call.Args[0], at, depth+1)
+						return provablyNonNil(x.Call.Args[0], at, depth+1, assume)
 					}
 					return false
 				}
@@ -608,7 +620,7 @@ func ProvablyNonNil(v ssa.Value, at ssa.Instruction, depth int) bool {
 		}
 	case *ssa.Phi:
 		for _, e := range x.Edges {
-			if !ProvablyNonNil(e, at, depth+1) {
+			if !provablyNonNil(e, at, depth+1, assume) {
 				// maybe guarded below
 				goto guard
 			}
@@ -633,6 +645,55 @@ guard:
 		}
 	}
 	return false
+}
+
+// calleeResultNonNil: v is the (error) result of a call to a module function with a body whose
+// every return yields a provably non-nil value for that result, assuming the parameters that
+// receive provably non-nil arguments are non-nil (e.g. `return m.abandon(err)` where abandon
+// returns errors.Join(cause, closeErr)).  ok=false when v is not such a call.
+func calleeResultNonNil(v ssa.Value, depth int, assume map[ssa.Value]bool) (result bool, ok bool) {
+	var call *ssa.Call
+	idx := 0
+	switch x := v.(type) {
+	case *ssa.Call:
+		call = x
+	case *ssa.Extract:
+		c, isCall := x.Tuple.(*ssa.Call)
+		if !isCall {
+			return false, false
+		}
+		call, idx = c, x.Index
+	default:
+		return false, false
+	}
+	f := StaticFn(call.Common())
+	if f == nil || f.Blocks == nil || !InModule(f) || depth > 4 {
+		return false, false
+	}
+	if _, isCall := v.(*ssa.Call); isCall && f.Signature.Results().Len() != 1 {
+		return false, false
+	}
+	inner := map[ssa.Value]bool{}
+	for i, a := range call.Call.Args {
+		if i < len(f.Params) && provablyNonNil(a, call, depth+1, assume) {
+			inner[f.Params[i]] = true
+		}
+	}
+	n := 0
+	for _, b := range f.Blocks {
+		if len(b.Instrs) == 0 || (f.Recover != nil && b == f.Recover) {
+			continue
+		}
+		r, isRet := b.Instrs[len(b.Instrs)-1].(*ssa.Return)
+		if !isRet || idx >= len(r.Results) {
+			continue
+		}
+		n++
+		if !provablyNonNil(RetVal(r, idx), r, depth+2, inner) {
+			return false, true
+		}
+	}
+	return n > 0, true
 }
 
 // variadicElems returns the values stored into the backing array of a variadic slice.
